@@ -164,6 +164,10 @@ class SPath:
         return self._with(self.parts[:-1]) if self.parts else self
 
     @property
+    def parents(self):
+        return [self._with(self.parts[:i]) for i in range(len(self.parts) - 1, -1, -1)]
+
+    @property
     def name(self):
         return self.parts[-1] if self.parts else ""
 
@@ -277,6 +281,12 @@ class TempDirs:
 class Shutil:
     def __init__(self, fs):
         self.fs = fs
+
+    def copy2(self, src, dst):
+        self.fs.write(parse(dst), self.fs.read(parse(src)))
+        return dst
+
+    copy = copyfile = copy2
 
     def rmtree(self, p, ignore_errors=False):
         try:
